@@ -42,6 +42,9 @@ def oracle(case, tool, ob):
             return (KNOWN_PY, f"exp2python ends with {st} on a valid schema that has an entity attribute (no ERROR printed)")
         if any(l.startswith("func ") for l in case.proto):
             return (KNOWN_PY_FUNC, f"exp2python ends with {st} on a valid schema that has a FUNCTION with a parameter and no entity attribute (no ERROR printed)")
+    if case.cls == "undefined-schema" and crashed:
+        return (f"{tool}:undefined-schema:crash", f"{tool} ends with {st} on a file whose only fault is an interface clause naming an undefined schema "
+                                                  f"(wanted: exit 1 with the UNDEFINED_SCHEMA error); printed {[d[3] for d in errs][:2]}")
     if st == "timeout":
         return (f"{tool}:{case.cls}:timeout", f"{tool} does not terminate on a {case.cls} input")
     nonzero = st != "0"
@@ -83,7 +86,8 @@ def run_cases(ctx, b, model, table, cases, label, tools):
             m = X.parse_run_reply(replies[ci][1 + ti], table)
             drop = X.ORDER_DEPENDENT | ({"OVERLOADED_ATTR", "UNKNOWN_ATTR_IN_ENTITY"} if c.cls == "subtype-cycle" else set())
             a, mm = X.canon(ob["diags"], drop=drop), X.canon(m["diags"], drop=drop)
-            st_ok = ob["status"] == m["status"] or (c.cls == "subtype-cycle" and ob["status"] == "signal11")
+            st_ok = ob["status"] == m["status"] or (c.cls == "subtype-cycle" and ob["status"] == "signal11") or \
+                (m.get("diverges") == "1" and (ob["status"] == "abort" or ob["status"].startswith("signal")))
             if ob["status"] == "signal11":
                 ctx.hist("observations", "SIGSEGV after a subtype cycle was reported (attribute look-up through cyclic supertypes)")
                 a = [x for x in a if x[0] in ("SUBSUPER_LOOP",)]; mm = [x for x in mm if x[0] in ("SUBSUPER_LOOP",)]
@@ -135,6 +139,7 @@ def prepare(ctx):
         "CONTINUATION messages of a cycle are not compared",
         "the backends themselves (what exp2cxx/exppp/exp2python write) are not modelled, only whether they ran",
     ]
+    X.seed_generated()
     proof_ok = ctx.lean("StepModel.Props.C04", exes=["m_c04"], extractors=EXTRACTORS)
     if not os.path.exists(ctx.model_exe("m_c04")) or not proof_ok:
         ok, out = L.lake_build(["m_c04"])
